@@ -1,0 +1,52 @@
+//go:build verif
+
+package server
+
+import (
+	"sync"
+
+	"github.com/youzan/ZanRedisDB/raft/raftpb"
+	"github.com/youzan/ZanRedisDB/transport/rafthttp"
+	"golang.org/x/net/context"
+)
+
+// Network-partition hook for the verification harness (/verif, property C04). Built only with
+// -tags verif. A filter in front of the server's rafthttp.Raft implementation drops the raft
+// messages that arrive from blocked replicas, as a cut link would.
+
+// VerifRaftFilter drops incoming raft messages whose sender is blocked.
+type VerifRaftFilter struct {
+	rafthttp.Raft
+	mu      sync.RWMutex
+	blocked map[uint64]bool
+}
+
+// Process implements rafthttp.Raft.
+func (f *VerifRaftFilter) Process(ctx context.Context, m raftpb.Message) error {
+	f.mu.RLock()
+	drop := f.blocked[m.From]
+	f.mu.RUnlock()
+	if drop {
+		return nil
+	}
+	return f.Raft.Process(ctx, m)
+}
+
+// SetBlocked replaces the set of replica ids whose messages are dropped (empty = healed).
+func (f *VerifRaftFilter) SetBlocked(ids []uint64) {
+	b := make(map[uint64]bool, len(ids))
+	for _, id := range ids {
+		b[id] = true
+	}
+	f.mu.Lock()
+	f.blocked = b
+	f.mu.Unlock()
+}
+
+// VerifInstallRaftFilter must be called after NewServer and before Start (peers and handlers
+// capture the transport's Raft when they are created).
+func (s *Server) VerifInstallRaftFilter() *VerifRaftFilter {
+	f := &VerifRaftFilter{Raft: s.raftTransport.Raft, blocked: map[uint64]bool{}}
+	s.raftTransport.Raft = f
+	return f
+}
